@@ -189,13 +189,17 @@ Example C16c_ex_roundtrips_computed :
   let pack := pack_from_data m_stream_T m_stream_B m_stream_z (Block.b_header TxWire.tx) std_messages in
   let parse := parse_from_data m_parse_T (m_parse_B ex_H ex_H) m_parse_z ip4_header inv_checked_types std_messages alert_layout
                  (fun d => Ret d) in
-  (exists bs, pack (str "tx") [(str "tx", VTx ex_tx2)] = Ret bs /\ length bs = 375 /\
-              parse (str "tx") bs = Ret [(str "tx", VTx ex_tx2)]) /\
-  (exists bs, pack (str "block") [(str "block", VBlock ex_blk)] = Ret bs /\ length bs = 519 /\
-              parse (str "block") bs = Ret [(str "block", VBlock ex_blk)]) /\
-  (exists bs, pack (str "headers") [(str "headers", VTuple [VTuple [VHdr ex_hdr; VInt 0]; VTuple [VBlock ex_blk; VInt 2]])] = Ret bs /\
-              length bs = 163 /\
-              parse (str "headers") bs = Ret [(str "headers", VTuple [VTuple [VHdr ex_hdr; VInt 0]; VTuple [VHdr ex_hdr; VInt 2]])]) /\
-  (exists bs, pack (str "blocktxn") [(str "header_hash", VBytes (repeatb x05 32)); (str "txs", VTuple [VTx ex_tx1; VTx ex_tx2])] = Ret bs /\
-              parse (str "blocktxn") bs = Ret [(str "header_hash", VBytes (repeatb x05 32)); (str "txs", VTuple [VTx ex_tx1; VTx ex_tx2])]).
-Proof. vm_compute. repeat split; eexists; repeat split. Qed.
+  match pack (str "tx") [(str "tx", VTx ex_tx2)] with
+  | Ret bs => length bs = 375 /\ parse (str "tx") bs = Ret [(str "tx", VTx ex_tx2)]
+  | _ => False end /\
+  match pack (str "block") [(str "block", VBlock ex_blk)] with
+  | Ret bs => length bs = 519 /\ parse (str "block") bs = Ret [(str "block", VBlock ex_blk)]
+  | _ => False end /\
+  match pack (str "headers") [(str "headers", VTuple [VTuple [VHdr ex_hdr; VInt 0]; VTuple [VBlock ex_blk; VInt 2]])] with
+  | Ret bs => length bs = 163 /\
+              parse (str "headers") bs = Ret [(str "headers", VTuple [VTuple [VHdr ex_hdr; VInt 0]; VTuple [VHdr ex_hdr; VInt 2]])]
+  | _ => False end /\
+  match pack (str "blocktxn") [(str "header_hash", VBytes (repeatb x05 32)); (str "txs", VTuple [VTx ex_tx1; VTx ex_tx2])] with
+  | Ret bs => parse (str "blocktxn") bs = Ret [(str "header_hash", VBytes (repeatb x05 32)); (str "txs", VTuple [VTx ex_tx1; VTx ex_tx2])]
+  | _ => False end.
+Proof. vm_compute. repeat split. Qed.
